@@ -11,8 +11,9 @@ CONSTANTS
   ENSURE_ATOMIC = TRUE
   EXIT_NOTIFY = TRUE
   COOP = FALSE
+  LINGER = TRUE
   RECLAIM = TRUE
   USED = FALSE
-INVARIANTS SingleWorker DeadIsError HandleAfterDropIsError Furthest Accepted
-POSTCONDITION Report
+INVARIANTS SingleWorker DeadIsError HandleAfterDropIsError Furthest
+POSTCONDITION TraceAccepted
 CHECK_DEADLOCK FALSE
